@@ -200,6 +200,9 @@ fn key<F: FpApi>(s: &St<F>) -> Vec<u8> {
     k.push(cx as u8);
     k.extend(by);
     k.push(cy as u8);
+    // the model component belongs to the state (never merge a state whose model value differs)
+    k.extend(be32(&s.mx));
+    k.extend(be32(&s.my));
     k
 }
 fn inv_fp<F: FpApi>(s: &St<F>) -> Result<(), Bad> {
@@ -470,6 +473,8 @@ fn key2(s: &St2) -> Vec<u8> {
     k.push(cx as u8);
     k.extend(by);
     k.push(cy as u8);
+    k.extend(refmodel::f2_bytes(&s.mx));
+    k.extend(refmodel::f2_bytes(&s.my));
     k
 }
 fn inv2(s: &St2) -> Result<(), Bad> {
@@ -579,7 +584,19 @@ fn machine2(run: &Run, depth: usize) {
     let ops = menu2(run.seed);
     let labels: Vec<String> = ops.iter().map(|o| o.label()).collect();
     let init = vec![St2 { x: Fq2::zero(), y: Fq2::one(), mx: F2::zero(), my: F2::one() }];
-    run.bfs("c07.Fq2", &labels, init, depth, key2, |s, i| step2(s, &ops[i]), inv2);
+    let out = run.bfs("c07.Fq2", &labels, init, depth, key2, |s, i| step2(s, &ops[i]), inv2);
+    if std::env::var("C07_DEBUG").is_ok() {
+        let mut m: std::collections::HashMap<Vec<u8>, usize> = Default::default();
+        for (i, s) in out.states.iter().enumerate() {
+            let k = key2(s);
+            let ck = k[..130].to_vec();
+            if let Some(j) = m.get(&ck) {
+                eprintln!("same concrete, different model: {:?} vs {:?}\n  {:?} {:?}\n  {:?} {:?}", out.path(*j), out.path(i), out.states[*j].mx, out.states[*j].my, s.mx, s.my);
+                break;
+            }
+            m.insert(ck, i);
+        }
+    }
 }
 
 pub const QUICK_BITS: [usize; 13] = [0, 1, 63, 64, 127, 128, 191, 192, 253, 254, 255, 256, 300];
